@@ -30,7 +30,7 @@ var fullTrimEnd = func() gram.Alphabet {
 	a.End = true
 	return a
 }()
-var abSp = []byte{'a', 'b', ' '}
+var abSp = []byte{'a', 'b', ' ', '\n'}
 
 func c04Specs(tier string) []spaceSpec {
 	if tier == "thorough" {
@@ -98,9 +98,10 @@ func c04Grammar(res *explore.Result, g *gram.Grammar, inputs [][]byte, verbose b
 	for _, e := range g.Nodes() {
 		if e.K == gram.LTrim || e.K == gram.RTrim {
 			trims = true
-			if e.K == gram.RTrim || e.Mode != 2 {
+			if e.K == gram.RTrim || (e.Mode != 2 && e.Kids[0].K != gram.T) {
 				// the reference models LeftTrim in the mode that never fails (spaces and new lines, what text.Trim
-				// uses); in the other modes, and for RightTrim, what "some parse" means next to an operand that matches
+				// uses) and, in every mode, directly around a terminal (a token, the case C10 specifies); in the other
+				// modes around other operands, and for RightTrim, what "some parse" means next to an operand that matches
 				// empty is not settled by the statement: those grammars are held to the unconditional clauses only
 				admitted = false
 			}
@@ -156,6 +157,24 @@ func c04Grammar(res *explore.Result, g *gram.Grammar, inputs [][]byte, verbose b
 				g2 := b.Guard(func() { val, eerr = parsley.Evaluate(ctx2, root) })
 				res.Add("transitions", b.Mon.Calls)
 				res.Add("traces", 1)
+				if n <= 2 && g1.Budget == "" && g2.Budget == "" && g1.Panic == "" && g2.Panic == "" && g1.Depth == "" {
+					// the optional passes switched on (no interpreter of these grammars transforms or checks anything):
+					// still a value or an error, never a panic, and the same verdict
+					var val3 interface{}
+					var eerr3 error
+					ctx3, _, _ := impl.NewContext(w)
+					ctx3.EnableTransformation()
+					ctx3.EnableStaticCheck()
+					b.Mon.Reset()
+					g3 := b.Guard(func() { val3, eerr3 = parsley.Evaluate(ctx3, root) })
+					if g3.Panic != "" {
+						bad = true
+						res.Violate("panic-in-evaluate", where+": parsley.Evaluate with transformation and static check enabled panicked: "+g3.Panic, c)
+					} else if g3.Budget == "" && g3.Depth == "" && (eerr3 == nil) != (eerr == nil) {
+						bad = true
+						res.Violate("optional-passes-change-the-verdict", fmt.Sprintf("%s: Evaluate gives %v, %v; with transformation and static check enabled %v, %v", where, val, eerr, val3, eerr3), c)
+					}
+				}
 
 				if g1.Budget != "" || g2.Budget != "" {
 					if explosiveFrom < 0 {
@@ -246,6 +265,30 @@ func c04Run(env *explore.Env) *explore.Result {
 		}
 		c04Grammar(res, g, inputs, false)
 	})
+	// two left-trimmed tokens with DIFFERENT whitespace modes tried at one position (every ordered pair of modes,
+	// three shapes): the verdict on a run belongs to the mode that asked
+	idx := int64(0)
+	for m1 := 0; m1 <= 3; m1++ {
+		for m2 := 0; m2 <= 3; m2++ {
+			if m1 == m2 {
+				continue
+			}
+			for _, tmpl := range []string{"N0=(any (ltrim%d a) (ltrim%d a))", "N0=(seq (opt (ltrim%d b)) (ltrim%d a))", "N0=(any (seq (ltrim%d a) b) (ltrim%d a))"} {
+				idx++
+				if !env.Mine(idx) {
+					continue
+				}
+				g, err := gram.Parse(fmt.Sprintf(tmpl, m1, m2))
+				if err != nil {
+					res.Notes = append(res.Notes, "bad mode-mixing grammar: "+err.Error())
+					continue
+				}
+				res.Add("grammars", 1)
+				res.Add("mode_mixing_grammars", 1)
+				c04Grammar(res, g, gram.Inputs(abSp, 3), false)
+			}
+		}
+	}
 	return res
 }
 
